@@ -83,6 +83,8 @@ type Interp struct {
 	noInit    bool
 	lockState map[string]int
 	tier      string
+	feasCache map[string]bool
+	pruneAll  bool
 }
 
 type accEntry struct {
@@ -207,9 +209,31 @@ func (in *Interp) feasible(c *Term) bool {
 			return false
 		}
 	}
-	in.stats.feas++
 	q := append(in.slice(in.pc(), c), c)
+	ids := make([]int, len(q))
+	for i, t := range q {
+		ids[i] = t.id
+	}
+	sort.Ints(ids)
+	var kb strings.Builder
+	last := -1
+	for _, id := range ids {
+		if id != last {
+			fmt.Fprintf(&kb, "%d,", id)
+		}
+		last = id
+	}
+	key := kb.String()
+	if in.feasCache != nil {
+		if v, ok := in.feasCache[key]; ok {
+			return v
+		}
+	}
+	in.stats.feas++
 	r, _ := in.sol.Check(q, false, in.cfg.FeasMs)
+	if in.feasCache != nil {
+		in.feasCache[key] = r != "unsat"
+	}
 	return r != "unsat"
 }
 
@@ -243,7 +267,9 @@ func (in *Interp) obligation(label, kind string, cond *Term) {
 		return
 	}
 	neg := in.ts.Not(cond)
-	q := append(in.slice(in.pc(), neg), neg)
+	// the whole path condition: guards of unpruned arms may be infeasible on their own, and a
+	// counterexample must give a value to every harness symbol to be replayable
+	q := append(in.pc(), neg)
 	ob := &Obligation{Harness: in.harness, Label: label, Kind: kind, Site: in.site(in.curInstr()), PathID: in.pathID}
 	in.fillScript(ob, q)
 	in.emit(ob)
@@ -400,6 +426,7 @@ func (in *Interp) info(fn *ssa.Function) *funcInfo {
 	}
 	fi.nregs = n
 	computeIPDom(fn, fi)
+	computeSCC(fn, fi)
 	in.finfo[fn] = fi
 	return fi
 }
@@ -604,3 +631,49 @@ func (in *Interp) concreteInt(fr *Frame, v ssa.Value, why string) int {
 }
 
 var _ = token.ADD
+
+// natural loops: for every back edge t->h (h dominates t) the set of blocks that reach t
+// without passing through h.  prune[b] is true when the branch in b decides about leaving a
+// loop that contains it (its immediate post-dominator lies outside that loop).
+func computeSCC(fn *ssa.Function, fi *funcInfo) {
+	fi.scc = map[*ssa.BasicBlock]int{}
+	fi.prune = map[*ssa.BasicBlock]bool{}
+	fi.backedge = map[[2]int]bool{}
+	var loops []map[*ssa.BasicBlock]bool
+	for _, t := range fn.Blocks {
+		for _, h := range t.Succs {
+			if !h.Dominates(t) {
+				continue
+			}
+			fi.backedge[[2]int{t.Index, h.Index}] = true
+			body := map[*ssa.BasicBlock]bool{h: true}
+			stack := []*ssa.BasicBlock{t}
+			for len(stack) > 0 {
+				x := stack[len(stack)-1]
+				stack = stack[:len(stack)-1]
+				if body[x] {
+					continue
+				}
+				body[x] = true
+				for _, p := range x.Preds {
+					stack = append(stack, p)
+				}
+			}
+			loops = append(loops, body)
+		}
+	}
+	for _, b := range fn.Blocks {
+		if len(b.Succs) != 2 {
+			continue
+		}
+		J := fi.ipdom[b]
+		for i, L := range loops {
+			if L[b] {
+				fi.scc[b] = i + 1
+				if J == nil || !L[J] {
+					fi.prune[b] = true
+				}
+			}
+		}
+	}
+}
